@@ -103,7 +103,8 @@ theorem stmtExpect_pure (d : Dev) (a : Action) (o : Oracle) (pat : Nat) :
     obtain ⟨o', ans, errs⟩ := q
     cases ans <;> rfl
 
-/-- `_process_setplugstate` once `xm_used` holds: new device state, oracle, output -/
+/-- `_process_setplugstate`: new device state, oracle, output (without match data — `!xm_used` — every `subOf` is `none`:
+    nothing happens) -/
 def setplugstatePure (d : Dev) (al : Nat) (o : Oracle) (target : Option Bytes) (lit : Option Bytes) (plugMp statMp : Int)
     (interps : List (PState × Nat)) : Dev × Oracle × List Out :=
   match chosenName d lit plugMp target with
@@ -116,17 +117,16 @@ def setplugstatePure (d : Dev) (al : Nat) (o : Oracle) (target : Option Bytes) (
     | _, _ => (d, o, [])
 
 theorem setplugstateCore_pure (d : Dev) (a : Action) (o : Oracle) (t lit : Option Bytes) (pm sm : Int)
-    (is : List (PState × Nat)) (hx : d.xmUsed = true) :
+    (is : List (PState × Nat)) :
     setplugstateCore d a o t lit pm sm is =
       ⟨(setplugstatePure d a.arglist o t lit pm sm is).1, a, (setplugstatePure d a.arglist o t lit pm sm is).2.1,
        (setplugstatePure d a.arglist o t lit pm sm is).2.2, true⟩ := by
   unfold setplugstateCore setplugstatePure
-  simp only [hx, Bool.not_true, Bool.false_eq_true, ↓reduceIte]
   cases chosenName d lit pm t with
   | none => rfl
   | some pn => dsimp only; cases subOf d sm <;> cases findPlug d pn <;> rfl
 
-/-- `_process_setresult` once `xm_used` holds -/
+/-- `_process_setresult` -/
 def setresultPure (d : Dev) (al : Nat) (cid : Nat) (o : Oracle) (plugMp statMp : Int)
     (interps : List (PResult × Nat)) : Dev × Oracle × List Out :=
   match subOf d plugMp with
@@ -143,25 +143,14 @@ def setresultPure (d : Dev) (al : Nat) (cid : Nat) (o : Oracle) (plugMp statMp :
     | _, _ => (d, o, [])
 
 theorem stmtSetresult_pure (d : Dev) (a : Action) (o : Oracle) (pm sm : Int)
-    (is : List (PResult × Nat)) (hx : d.xmUsed = true) :
+    (is : List (PResult × Nat)) :
     stmtSetresult d a o pm sm is =
       ⟨(setresultPure d a.arglist a.clientId o pm sm is).1, a, (setresultPure d a.arglist a.clientId o pm sm is).2.1,
        (setresultPure d a.arglist a.clientId o pm sm is).2.2, true⟩ := by
   unfold stmtSetresult setresultPure writeResult
-  simp only [hx, Bool.not_true, Bool.false_eq_true, ↓reduceIte]
   cases subOf d pm with
   | none => rfl
   | some pn => dsimp only; cases subOf d sm <;> cases findPlug d pn <;> rfl
-
-theorem stmtSetresult_noxm (d : Dev) (a : Action) (o : Oracle) (pm sm : Int)
-    (is : List (PResult × Nat)) (hx : d.xmUsed = false) :
-    stmtSetresult d a o pm sm is = ⟨d, a, o, [.abortAssert "xm_used"], true⟩ := by
-  unfold stmtSetresult; simp [hx]
-
-theorem setplugstateCore_noxm (d : Dev) (a : Action) (o : Oracle) (t lit : Option Bytes) (pm sm : Int)
-    (is : List (PState × Nat)) (hx : d.xmUsed = false) :
-    setplugstateCore d a o t lit pm sm is = ⟨d, a, o, [.abortAssert "xm_used"], true⟩ := by
-  unfold setplugstateCore; simp [hx]
 
 
 /-! ### one step of the reference -/
@@ -195,11 +184,9 @@ def fstep (now : Time) (d : Dev) (i : FA) (o : Oracle) (f : F) : FR :=
       ⟨d, { i with delayStart := start }, o, tele, ⟨r, false⟩, classify tele true⟩
     else ⟨{ d with wake := some (start + us - now) }, { i with delayStart := start }, o, tele, ⟨f.rem, true⟩, classify tele false⟩
   | .setplugstate lit pm sm is target :: r =>
-    if !d.xmUsed then ⟨d, i, o, [.abortAssert "xm_used"], f, .aborted⟩ else
     let p := setplugstatePure d i.arglist o target lit pm sm is
     ⟨p.1, i, p.2.1, p.2.2, ⟨r, false⟩, classify p.2.2 true⟩
   | .setresult pm sm is :: r =>
-    if !d.xmUsed then ⟨d, i, o, [.abortAssert "xm_used"], f, .aborted⟩ else
     let p := setresultPure d i.arglist i.clientId o pm sm is
     ⟨p.1, i, p.2.1, p.2.2, ⟨r, false⟩, classify p.2.2 true⟩
   | .guard wantOn node body :: r =>
@@ -1132,46 +1119,28 @@ theorem sim_setplugstate (R : Bool) (dp : List Plug) (now : Time) (d : Dev) (a :
       ⟨.setplugstate lit pm sm is (ctxName e.plugs) :: (unroll R dp (e.block.drop (e.pos + 1)) e.plugs ++ cont R dp rest), false⟩ := by
     rw [hex, abs_leaf R dp e rest _ hcur rfl]; simp [unrollStmt, Stmt.twoPhase]
   have hexec0 : a.exec = { e with processing := false } :: rest := by rw [hex]; cases e; simp_all
-  by_cases hx : d.xmUsed = true
-  · have hpure := setplugstateCore_pure d a o (ctxName e.plugs) lit pm sm is hx
-    have hfs : fstep now d (info a) o (abs R dp a.exec) =
-        ⟨(setplugstatePure d a.arglist o (ctxName e.plugs) lit pm sm is).1, info a,
-         (setplugstatePure d a.arglist o (ctxName e.plugs) lit pm sm is).2.1,
-         (setplugstatePure d a.arglist o (ctxName e.plugs) lit pm sm is).2.2,
-         ⟨unroll R dp (e.block.drop (e.pos + 1)) e.plugs ++ cont R dp rest, false⟩,
-         classify (setplugstatePure d a.arglist o (ctxName e.plugs) lit pm sm is).2.2 true⟩ := by
-      rw [habs]; simp only [fstep, hx]; rfl
-    refine sim_leaf R dp now d a o e rest _ hex hcur rfl hok false ?_ ?_ ?_ ?_ ?_ ?_ ?_ ?_ ?_ ?_ ?_
-    · rw [hps, hpure]; exact hexec0
-    · rw [hps, hpure]; exact herr
-    · intro _; rfl
-    · intro _; rfl
-    · rw [hfs, hps, hpure]
-    · rw [hfs, hps, hpure]
-    · rw [hfs, hps, hpure]
-    · rw [hfs, hps, hpure]
-    · rw [hfs, hps, hpure]
-    · intro _; rw [hfs]
-    · intro hst
-      rw [hps, hpure] at hst; dsimp only at hst
-      have := ((classify_stalled _ _).mp hst).2; cases this
-  · have hx' : d.xmUsed = false := by simpa using hx
-    have hpure := setplugstateCore_noxm d a o (ctxName e.plugs) lit pm sm is hx'
-    have hfs : fstep now d (info a) o (abs R dp a.exec) =
-        ⟨d, info a, o, [.abortAssert "xm_used"], abs R dp a.exec, .aborted⟩ := by
-      rw [habs]; simp only [fstep, hx']; rfl
-    refine sim_leaf R dp now d a o e rest _ hex hcur rfl hok false ?_ ?_ ?_ ?_ ?_ ?_ ?_ ?_ ?_ ?_ ?_
-    · rw [hps, hpure]; exact hexec0
-    · rw [hps, hpure]; exact herr
-    · intro _; rfl
-    · intro _; rfl
-    · rw [hfs, hps, hpure]; simp only [classify_abort1]
-    · rw [hfs, hps, hpure]
-    · rw [hfs, hps, hpure]
-    · rw [hfs, hps, hpure]
-    · rw [hfs, hps, hpure]
-    · intro h; rw [hps, hpure] at h; simp only [classify_abort1] at h; cases h
-    · intro h; rw [hps, hpure] at h; simp only [classify_abort1] at h; cases h
+  have hpure := setplugstateCore_pure d a o (ctxName e.plugs) lit pm sm is
+  have hfs : fstep now d (info a) o (abs R dp a.exec) =
+      ⟨(setplugstatePure d a.arglist o (ctxName e.plugs) lit pm sm is).1, info a,
+       (setplugstatePure d a.arglist o (ctxName e.plugs) lit pm sm is).2.1,
+       (setplugstatePure d a.arglist o (ctxName e.plugs) lit pm sm is).2.2,
+       ⟨unroll R dp (e.block.drop (e.pos + 1)) e.plugs ++ cont R dp rest, false⟩,
+       classify (setplugstatePure d a.arglist o (ctxName e.plugs) lit pm sm is).2.2 true⟩ := by
+    rw [habs]; simp only [fstep]; rfl
+  refine sim_leaf R dp now d a o e rest _ hex hcur rfl hok false ?_ ?_ ?_ ?_ ?_ ?_ ?_ ?_ ?_ ?_ ?_
+  · rw [hps, hpure]; exact hexec0
+  · rw [hps, hpure]; exact herr
+  · intro _; rfl
+  · intro _; rfl
+  · rw [hfs, hps, hpure]
+  · rw [hfs, hps, hpure]
+  · rw [hfs, hps, hpure]
+  · rw [hfs, hps, hpure]
+  · rw [hfs, hps, hpure]
+  · intro _; rw [hfs]
+  · intro hst
+    rw [hps, hpure] at hst; dsimp only at hst
+    have := ((classify_stalled _ _).mp hst).2; cases this
 
 theorem sim_setresult (R : Bool) (dp : List Plug) (now : Time) (d : Dev) (a : Action) (o : Oracle) (e : ExecCtx)
     (rest : List ExecCtx) (pm sm : Int) (is : List (PResult × Nat))
@@ -1189,46 +1158,28 @@ theorem sim_setresult (R : Bool) (dp : List Plug) (now : Time) (d : Dev) (a : Ac
       ⟨.setresult pm sm is :: (unroll R dp (e.block.drop (e.pos + 1)) e.plugs ++ cont R dp rest), false⟩ := by
     rw [hex, abs_leaf R dp e rest _ hcur rfl]; simp [unrollStmt, Stmt.twoPhase]
   have hexec0 : a.exec = { e with processing := false } :: rest := by rw [hex]; cases e; simp_all
-  by_cases hx : d.xmUsed = true
-  · have hpure := stmtSetresult_pure d a o pm sm is hx
-    have hfs : fstep now d (info a) o (abs R dp a.exec) =
-        ⟨(setresultPure d a.arglist a.clientId o pm sm is).1, info a,
-         (setresultPure d a.arglist a.clientId o pm sm is).2.1,
-         (setresultPure d a.arglist a.clientId o pm sm is).2.2,
-         ⟨unroll R dp (e.block.drop (e.pos + 1)) e.plugs ++ cont R dp rest, false⟩,
-         classify (setresultPure d a.arglist a.clientId o pm sm is).2.2 true⟩ := by
-      rw [habs]; simp only [fstep, hx]; rfl
-    refine sim_leaf R dp now d a o e rest _ hex hcur rfl hok false ?_ ?_ ?_ ?_ ?_ ?_ ?_ ?_ ?_ ?_ ?_
-    · rw [hps, hpure]; exact hexec0
-    · rw [hps, hpure]; exact herr
-    · intro _; rfl
-    · intro _; rfl
-    · rw [hfs, hps, hpure]
-    · rw [hfs, hps, hpure]
-    · rw [hfs, hps, hpure]
-    · rw [hfs, hps, hpure]
-    · rw [hfs, hps, hpure]
-    · intro _; rw [hfs]
-    · intro hst
-      rw [hps, hpure] at hst; dsimp only at hst
-      have := ((classify_stalled _ _).mp hst).2; cases this
-  · have hx' : d.xmUsed = false := by simpa using hx
-    have hpure := stmtSetresult_noxm d a o pm sm is hx'
-    have hfs : fstep now d (info a) o (abs R dp a.exec) =
-        ⟨d, info a, o, [.abortAssert "xm_used"], abs R dp a.exec, .aborted⟩ := by
-      rw [habs]; simp only [fstep, hx']; rfl
-    refine sim_leaf R dp now d a o e rest _ hex hcur rfl hok false ?_ ?_ ?_ ?_ ?_ ?_ ?_ ?_ ?_ ?_ ?_
-    · rw [hps, hpure]; exact hexec0
-    · rw [hps, hpure]; exact herr
-    · intro _; rfl
-    · intro _; rfl
-    · rw [hfs, hps, hpure]; simp only [classify_abort1]
-    · rw [hfs, hps, hpure]
-    · rw [hfs, hps, hpure]
-    · rw [hfs, hps, hpure]
-    · rw [hfs, hps, hpure]
-    · intro h; rw [hps, hpure] at h; simp only [classify_abort1] at h; cases h
-    · intro h; rw [hps, hpure] at h; simp only [classify_abort1] at h; cases h
+  have hpure := stmtSetresult_pure d a o pm sm is
+  have hfs : fstep now d (info a) o (abs R dp a.exec) =
+      ⟨(setresultPure d a.arglist a.clientId o pm sm is).1, info a,
+       (setresultPure d a.arglist a.clientId o pm sm is).2.1,
+       (setresultPure d a.arglist a.clientId o pm sm is).2.2,
+       ⟨unroll R dp (e.block.drop (e.pos + 1)) e.plugs ++ cont R dp rest, false⟩,
+       classify (setresultPure d a.arglist a.clientId o pm sm is).2.2 true⟩ := by
+    rw [habs]; simp only [fstep]; rfl
+  refine sim_leaf R dp now d a o e rest _ hex hcur rfl hok false ?_ ?_ ?_ ?_ ?_ ?_ ?_ ?_ ?_ ?_ ?_
+  · rw [hps, hpure]; exact hexec0
+  · rw [hps, hpure]; exact herr
+  · intro _; rfl
+  · intro _; rfl
+  · rw [hfs, hps, hpure]
+  · rw [hfs, hps, hpure]
+  · rw [hfs, hps, hpure]
+  · rw [hfs, hps, hpure]
+  · rw [hfs, hps, hpure]
+  · intro _; rw [hfs]
+  · intro hst
+    rw [hps, hpure] at hst; dsimp only at hst
+    have := ((classify_stalled _ _).mp hst).2; cases this
 
 
 theorem sim_send (R : Bool) (dp : List Plug) (now : Time) (d : Dev) (a : Action) (o : Oracle) (e : ExecCtx)
